@@ -13,7 +13,9 @@ def work(b):
 def targeted(rng):
     """paragraphs aimed at the merge rule: equal-format runs separated by every kind of element; prefix-related formats; 3+ streaks"""
     g = docgen.Gen(rng, 'full'); docs = []
-    fmts = [None, [[1, 1]], [[1, 1], [2, 1]], [[100, 0]], [[100, 0], [101, 0]], [], [[2, 1]]]
+    # 105 / 106: same element (and same w:val) as 102 / 100, other attributes differ: still different formatting
+    EXTRA = ['<w:rFonts w:ascii="Times New Roman" w:hAnsi="Times New Roman"></w:rFonts>', '<w:color w:themeColor="accent1" w:val="FF0000"></w:color>']
+    fmts = [None, [[1, 1]], [[1, 1], [2, 1]], [[100, 0]], [[100, 0], [101, 0]], [], [[2, 1]], [[102, 0]], [[105, 0]], [[106, 0]]]
     seps = [None, ['other', 1], ['other', 2], ['other', 4], ['crs', '1'], 'ins', 'del', 'ref', 'special', 'empty']
     for f1 in fmts:
         for f2 in fmts:
@@ -35,7 +37,7 @@ def targeted(rng):
                 if sep == ['crs', '1']: ns += [['cre', '1'], ['run', g.fresh(), None, [['ref', '1']]]]
                 tbl = {'t': 'tbl', 'tok': 0, 'rows': [[{'tok': 0, 'span': 1, 'vm': None, 'blocks': [dict(p, pid=g.pid + 5000, nodes=json.loads(json.dumps(ns)))]}]]}
                 docs.append({'stories': [{'kind': 0, 'blocks': [dict(p, pid=g.pid + 9000, nodes=json.loads(json.dumps([n for n in ns if n[0] not in ('crs', 'cre') and not (n[0] == 'run' and any(k[0] == 'ref' for k in n[3]))])))]}] if rng.random() < .3 else [] ,
-                             'comments': cs, 'next_uid': g.uid + 1000, 'rpr_table': g.table_list(), 'features': ['targeted']})
+                             'comments': cs, 'next_uid': g.uid + 1000, 'rpr_table': g.table_list() + EXTRA, 'features': ['targeted']})
                 docs[-1]['stories'] = docs[-1]['stories'] + [{'kind': 1, 'blocks': [p] + ([tbl] if rng.random() < .3 and not cs else [])}]
     return docs
 
